@@ -400,19 +400,35 @@ class _AsyncResult:
         except Exception as exc:       # what a worker would send back
             self.exc = exc
             if self.error_callback:
-                self.error_callback(exc)
+                try:
+                    self.error_callback(exc)
+                except Exception as cb_exc:
+                    # multiprocessing runs the callbacks on the pool's result-handler thread BEFORE the
+                    # result is published; a callback that raises kills that thread and the result (and
+                    # every later one) is never delivered: whoever waits for it waits for ever
+                    self.pool.handler_dead = 'error_callback raised %r' % (cb_exc,)
             return
         if self.callback:
-            self.callback(self.value)
+            try:
+                self.callback(self.value)
+            except Exception as cb_exc:
+                self.pool.handler_dead = 'callback raised %r' % (cb_exc,)
 
     def get(self, timeout=None):
         self.pool._drive(self)
+        if getattr(self.pool, 'handler_dead', None):
+            if timeout is not None:
+                import multiprocessing
+                raise multiprocessing.TimeoutError()
+            raise Hang("AsyncResult.get() never returns: " + self.pool.handler_dead)
         if self.exc is not None:
             raise self.exc
         return self.value
 
     def wait(self, timeout=None):
         self.pool._drive(self)
+        if getattr(self.pool, 'handler_dead', None) and timeout is None:
+            raise Hang("AsyncResult.wait() never returns: " + self.pool.handler_dead)
 
     def ready(self):
         # a task that has been submitted may have finished at any time: under the symbolic
@@ -427,6 +443,11 @@ class _AsyncResult:
         if not self.done:
             raise ValueError("not ready")
         return self.exc is None
+
+
+class Hang(BaseException):
+    """The modelled call would block for ever (not an Exception: nothing in the code under test can
+    catch a hang)."""
 
 
 class StubPool:
@@ -447,6 +468,7 @@ class StubPool:
         self.joined = False
         self.terminated = False
         self.fault = StubPool.fault
+        self.handler_dead = None
         StubPool.instances.append(self)
 
     def apply_async(self, func, args=(), kwds=None, callback=None, error_callback=None):
